@@ -409,6 +409,12 @@ def gen_case(rng, stream, forced=None, focus=None):
             v = conf(rng, vk[0]['ann'])
             if v is not None:
                 kwargs.append([name, v])
+    po = [p for p in params if p['kind'] == 'posonly']
+    if po and vk and rng.random() < 0.5:
+        # the NAME of a positional-only parameter used as a key of **kwargs (legal: CPython puts it into the dict)
+        v = conf(rng, vk[0]['ann'])
+        if v is not None and po[0]['name'] not in [k for k, _ in kwargs]:
+            kwargs.append([po[0]['name'], v])
     kwargs_full = copy.deepcopy(kwargs)
     vp = [p for p in params if p['kind'] == 'varpos']
     positional_style = False
@@ -843,6 +849,7 @@ MATCHERS = {
     'star_elements_dropped_for_static_or_class_method': lambda c, fn: has_varpos(fn) and len(c['args']) > 0
                                                                       and (fn['text']['staticmethod'] or fn['bound'] is not None),
     'generator_resumed_after_exhaustion': lambda c, fn: resumed_after_exhaustion(c),
+    'posonly_name_used_as_keyword': lambda c, fn: any(p['kind'] == 'posonly' and p['name'] in [k for k, _ in c['kwargs']] for p in fn['params']),
     'throw_answered_by_generator': lambda c, fn: bool(c.get('gen')) and c.get('on_throw', 'propagate') != 'propagate'
                                                  and any(o[0] == 'throw' for o in c.get('ops', [])),
     'pedantic_text_in_method_of_pedantic_class': lambda c, fn: c['style'] == 'class_deco' and fn['text']['pedantic'],
